@@ -69,7 +69,7 @@ func (s *String) Next() (Object, Object, bool) {
 func (s *String) HashKey() HashKey {
 	h := fnv.New64a()
 	h.Write([]byte(s.Value))
-	return HashKey{Type: s.Type(), Value: h.Sum64()}
+	return HashKey{Type: s.Type(), Value: h.Sum64(), Text: s.Value}
 }
 
 // JSON converts this object to a JSON string.
